@@ -17,7 +17,7 @@ def close(a, b, rtol, atol):
         return False
     return abs(a - b) <= atol + rtol * max(abs(a), abs(b))
 
-def cmp_tokens(model, impl, rtol=0.0, atol=0.0, scale=None):
+def cmp_tokens(model, impl, rtol=0.0, atol=0.0, scale=None, atols=None):
     """Compare two canonical lines token by token.  Hex-double tokens are compared with
     |a-b| <= atol + rtol*max(|a|,|b|) (+ rtol*scale when a common scale is given); everything
     else must be identical.  Returns None if equal, else a short description."""
@@ -30,7 +30,7 @@ def cmp_tokens(model, impl, rtol=0.0, atol=0.0, scale=None):
         if is_hex(a) and is_hex(b):
             x, y = h2f(a), h2f(b)
             extra = rtol * scale if scale else 0.0
-            if close(x, y, rtol, atol + extra):
+            if close(x, y, rtol, atol + extra + (atols[n] if atols is not None and n < len(atols) else 0.0)):
                 continue
             return 'token %d: model %r vs impl %r' % (n, x, y)
         return 'token %d: model %s vs impl %s' % (n, a, b)
@@ -85,10 +85,10 @@ class Ctx:
             self.hashes.add(jhash([suite, case]))
         if len(self.samples) < self.sample_cap and not any(s['suite'] == suite for s in self.samples):
             self.samples.append({'suite': suite, 'case': case})
-    def corr(self, suite, case, model, impl, rtol=0.0, atol=0.0, scale=None, what=''):
+    def corr(self, suite, case, model, impl, rtol=0.0, atol=0.0, scale=None, what='', atols=None):
         """one correspondence comparison: canonical model line vs canonical impl line"""
         self.traces += 1
-        d = cmp_tokens(model, impl, rtol, atol, scale)
+        d = cmp_tokens(model, impl, rtol, atol, scale, atols)
         if d is not None:
             self.dist['DISAGREE:' + suite] += 1
             if len(self.disagreements) < 50:
